@@ -666,6 +666,15 @@ def contains(st, container, item):
         c = concretise_str(st, item)
         if isinstance(c, str):
             return c in container
+        res = False
+        for k in container:
+            if isinstance(k, str):
+                e = str_eq(st, item, k)
+                res = zor(res, e)
+        return _wrapb(res)
+    if isinstance(container, SStr) and isinstance(item, str) and len(item) == 1 and not item.isdigit():
+        # Fmt pieces are digits only
+        return any(isinstance(sg, str) and item in sg for sg in container.segs)
     if isinstance(container, str) and isinstance(item, str):
         return item in container
     raise EngineUnsupported(f"`in` on {container!r}")
